@@ -108,6 +108,8 @@ impl BlkFile {
 pub enum Extra {
     File(String, Vec<u8>),
     Dir(String),
+    /// symbolic link `name` -> `target` (the target need not exist)
+    Symlink(String, String),
 }
 
 #[derive(Clone, Debug)]
@@ -228,6 +230,7 @@ impl World {
             .map(|e| match e {
                 Extra::File(n, c) => json!(["file", n, hex(c)]),
                 Extra::Dir(n) => json!(["dir", n]),
+                Extra::Symlink(n, t) => json!(["symlink", n, t]),
             })
             .collect();
         json!({"coin": self.coin.name, "files": files, "index_ops": ops, "xor_key": self.xor_key.as_ref().map(|k| hex(k)), "extra": extra})
@@ -257,6 +260,7 @@ impl World {
         for e in v["extra"].as_array().unwrap() {
             match e[0].as_str().unwrap() {
                 "file" => w.extra.push(Extra::File(e[1].as_str().unwrap().to_string(), unhex(e[2].as_str().unwrap()))),
+                "symlink" => w.extra.push(Extra::Symlink(e[1].as_str().unwrap().to_string(), e[2].as_str().unwrap().to_string())),
                 _ => w.extra.push(Extra::Dir(e[1].as_str().unwrap().to_string())),
             }
         }
@@ -287,6 +291,10 @@ impl World {
             match e {
                 Extra::File(n, c) => fs::write(dir.join(n), c)?,
                 Extra::Dir(n) => fs::create_dir_all(dir.join(n))?,
+                Extra::Symlink(n, t) => {
+                    let _ = fs::remove_file(dir.join(n));
+                    std::os::unix::fs::symlink(t, dir.join(n))?
+                }
             }
         }
         write_index(&dir.join("index"), &self.index_ops).map_err(|e| std::io::Error::new(std::io::ErrorKind::Other, format!("leveldb: {}", e)))?;
